@@ -68,6 +68,14 @@ func (s scen) argsSource() string {
 			pad += fmt.Sprintf("  a%d := %d\n", i, i)
 		}
 		return "out := chan(3)\nfunc start(id) {\n  a1 := id * 10\n" + pad + "  return spawn(func() { out <- a1\n return a1 + a2 })\n}\nt1 := start(1)\nt2 := start(2)\nt3 := start(3)\ngot(\"n\", sorted([<-out, <-out, <-out]))\ngot(\"w\", [t1.wait(), t2.wait(), t3.wait()])\n\"done\"\n"
+	case "nested-spawn":
+		// a thread that starts another thread and returns at once: the inner thread still delivers its value
+		// and its result although the call that started it is long gone (the outer call takes two unused
+		// arguments so that every spawn form can start it)
+		return "out := chan()\nfunc inner(k) { out <- k\n return k * 2 }\nfunc outer(a, b) { return spawn(inner, 7) }\n" + start("outer", "0, 0", "t") + "h := " + wait("t") + "\ngot(\"n\", <-out)\ngot(\"w\", h.wait())\n\"done\"\n"
+	case "nested-go":
+		// the same with a go statement inside the spawned call: two values sent after the starter returned
+		return "out := chan()\nfunc outer(a, b) { go func() { out <- 1\n out <- 2 }()\n return 5 }\n" + start("outer", "0, 0", "t") + "got(\"w\", " + wait("t") + ")\ngot(\"n\", [<-out, <-out])\n\"done\"\n"
 	case "map-spawn":
 		return "func worker(j) { return j * 10 }\nts := [1, 2, 3].map(worker.spawn)\ngot(\"n\", ts.map(func(t) { return t.wait() }))\n\"done\"\n"
 	case "error":
@@ -189,6 +197,8 @@ func (s scen) judge(x *dsched.Exec, st *state) (violation, key string) {
 			"each-spawn":      `"n":[1, 2, 3]`,
 			"map-spawn":       `"n":[10, 20, 30]`,
 			"wide-helper":     `"n":[10, 20, 30] "w":[12, 22, 32]`,
+			"nested-spawn":    `"n":7 "w":14`,
+			"nested-go":       `"w":5 "n":[1, 2]`,
 		}[s.Args]
 		if s.Args == "error" && s.Spawn == "go" {
 			// the go statement has no handle: the error of the spawned call is not observable through wait()
@@ -292,6 +302,9 @@ func scenarios(thorough bool) []scen {
 		}
 	}
 	out = append(out, scen{Spawn: "fnspawn", Args: "each-spawn"}, scen{Spawn: "fnspawn", Args: "map-spawn"}, scen{Spawn: "spawn", Args: "wide-helper"})
+	for _, sp := range spawns {
+		out = append(out, scen{Spawn: sp, Args: "nested-spawn"}, scen{Spawn: sp, Args: "nested-go"})
+	}
 	if !thorough {
 		for _, sr := range [][2]int{{1, 1}, {1, 2}, {2, 1}} {
 			for _, b := range []int{0, 1} {
